@@ -200,8 +200,8 @@ class Case:
                 before = interp_state()
                 frame = w.frame if (w.kind != "sync" and label == "suspended") else None
                 held = []
-                with warnings.catch_warnings(record=True) as caught, contextlib.redirect_stderr(io.StringIO()):
-                    warnings.simplefilter("always")
+                n_warn_before = len(warn_seen)
+                with contextlib.redirect_stderr(io.StringIO()):
                     # the first extraction also primes CPython's per-frame f_locals snapshot (finding F15, witnessed separately);
                     # reference counts are compared across the following ones
                     first = stackscope.extract(tgt)
@@ -220,9 +220,8 @@ class Case:
                     for _ in range(reps):
                         held.append(stackscope.extract(tgt))
                         self.stats["extractions"] += 1
-                if any(issubclass(x.category, InspectionWarning) for x in caught):
+                if any(issubclass(cat, InspectionWarning) for cat, _ in warn_seen[n_warn_before:]):
                     self.stats["fallbacks"] += 1
-                del caught
                 if len(held) >= 2:
                     self.stats["eq_checks"] += 1
                     if not all(norm_stack(h) == norm_stack(held[0]) for h in held[1:]):
@@ -298,14 +297,36 @@ class Case:
             for h in (h1, h2):
                 root.addHandler(h)
                 log_handlers.append(h)
-        w0, t0 = run(lambda w, l: None)
+        # the warnings machinery is set up ONCE for both twins (entering / leaving warnings.catch_warnings, or touching the filters,
+        # makes every module forget which warnings it has already shown): everything is recorded by one hook; the target itself
+        # issues one once-per-location warning at every observation point of both twins
+        warn_seen: List[tuple] = []
+        _wctx = warnings.catch_warnings()
+        _wctx.__enter__()
+        warnings.simplefilter("default")
+        warnings.filterwarnings("always", category=InspectionWarning)
+        warnings.showwarning = lambda message, category, *a, **k: warn_seen.append((category, str(message)))
+
+        def ticking(obs):
+            def o(w, label):
+                warnings.warn("c06 tick", UserWarning)           # (one fixed location: shown once under the default action)
+                return obs(w, label)
+            return o
+
+        w0, t0 = run(ticking(lambda w, l: None))
+        ticks0 = sum(1 for _, m in warn_seen if m == "c06 tick")
         log_n0 = len(log_handlers[1].buffer) if log_handlers else 0
         refs0 = self.weakrefs(w0)
         del w0
         gc.collect()
         alive0 = [n for n, r in refs0 if r() is not None]
         idx[0] = 0
-        w1, t1 = run(observer)
+        w1, t1 = run(ticking(observer))
+        ticks1 = sum(1 for _, m in warn_seen if m == "c06 tick") - ticks0
+        _wctx.__exit__(None, None, None)
+        if ticks1 != 0 and idx[0] > 0 and ticks0 <= 1:
+            self.problems.append(f"a warning the target issues from one place (shown once, under the default action) was delivered {ticks1} more "
+                                 f"time(s) in the observed run: the extractions made the interpreter forget which warnings had been shown")
         if t0 != t1:
             k = next((j for j, (a, b) in enumerate(zip(t0, t1)) if a != b), min(len(t0), len(t1)))
             self.problems.append(f"the observed run diverges from the unobserved twin at event {k}: unobserved {t0[k:k+3]}, observed {t1[k:k+3]}")
@@ -435,6 +456,76 @@ class Case:
         return {"events": len(t0)}
 
 
+def run_warnreg(case: dict, problems: List[str]) -> dict:
+    """The interpreter's record of which warnings have been shown (per-module registries, invalidated whenever the filters are
+    touched or a warnings.catch_warnings block is left) is state of the target's process: a warning the target issues from one place
+    under the default action is shown once, however many extractions happen in between."""
+    import contextlib as _c
+
+    import stackscope
+    from stackscope import lowlevel
+
+    seen: List[str] = []
+    with warnings.catch_warnings():
+        warnings.simplefilter("default")
+        warnings.showwarning = lambda m, c, *a, **k: seen.append(str(m))
+
+        def tick():
+            warnings.warn("c06 once-per-location", UserWarning)
+
+        class M:
+            def __enter__(s):
+                return s
+
+            def __exit__(s, *a):
+                return False
+
+        def gen():
+            with _c.ExitStack() as es:
+                es.enter_context(M())
+                es.callback(print, "x")
+                es.push(M())
+                with M():
+                    yield
+
+        async def agen():
+            async with _c.AsyncExitStack() as es:
+                es.enter_context(M())
+                es.push_async_callback(trapper)
+                yield 1
+
+        async def trapper():
+            pass
+
+        lowlevel.set_trickery_enabled(None if case["mode"] == "auto" else case["mode"] == "trickery")
+        try:
+            if case["target"] == "gen":
+                t = gen()
+                next(t)
+            else:
+                t = agen()
+                step = t.asend(None)
+                try:
+                    step.send(None)
+                except StopIteration:
+                    pass
+            n = 0
+            for _ in range(case["reps"]):
+                tick()
+                st = stackscope.extract(t)
+                n += 1
+                str(st)
+                del st
+            tick()
+        finally:
+            lowlevel.set_trickery_enabled(None)
+    shown = sum(1 for m in seen if m == "c06 once-per-location")
+    if shown != 1:
+        problems.append(f"a warning the target issues from one place under the default action was shown {shown} times across {n} "
+                        f"extraction(s) of a {case['target']} holding an exit stack; without extractions it is shown once")
+    return {"shown": shown}
+
+
 def main():
     spec = json.loads(sys.stdin.read())
     import stackscope  # noqa
@@ -442,7 +533,7 @@ def main():
     for case in spec["cases"]:
         c = Case(case)
         try:
-            info = c.run_prog() if case["k"] == "prog" else c.run_chain()
+            info = run_warnreg(case, c.problems) if case["k"] == "warnreg" else c.run_prog() if case["k"] == "prog" else c.run_chain()
             r = {"problems": c.problems, "stats": c.stats, "info": info, "refs": c.refs_obs}
         except BaseException as e:
             import traceback
